@@ -60,7 +60,28 @@ struct InstCfg {
     size_t heapLen = 64;      // cfg heap only
     std::vector<Cmd> cmds;
     bool traceValues = true;
+    // a second, independent instrument in the same process: same command table, another unit table (every shipped suffix
+    // name bound to the unit and multiplier of a different entry), own buffers.  It is fed every chunk the instrument under
+    // test is about to receive, then a lone CR, right before each SCPI_Input call; its command table holds the same entries
+    // at other positions.  Nothing it does may change what the
+    // instrument under test does: the library keeps its state in the context.
+    bool decoy = false;
+    bool noOptionalCallbacks = false;          // flush, control and reset callbacks absent (they are optional; write and - for the harness - error stay)
+    int controlAction = 0;                     // what the control callback does when a service request is announced: 0 nothing, 1 reads and clears ESR,
+                                               // 2 disarms SRE, 3 pushes an error (a callback may call the public API; not re-entered while it runs)
+    int controlReturns = 0;                    // what the control callback returns: 0 OK, 1 SCPI_RES_ERR (a transport that could not deliver the request)
+    const scpi_unit_def_t *units = nullptr;   // nullptr = the shipped table
 };
+
+inline const scpi_unit_def_t *decoyUnits() {
+    static std::vector<scpi_unit_def_t> t;
+    if (t.empty()) {
+        size_t n = 0; while (scpi_units_def[n].name) n++;
+        for (size_t i = 0; i < n; i++) { scpi_unit_def_t e = scpi_units_def[i]; const scpi_unit_def_t &o = scpi_units_def[(i + 7) % n]; e.unit = o.unit; e.mult = o.mult * 3; t.push_back(e); }
+        scpi_unit_def_t end = SCPI_UNITS_LIST_END; t.push_back(end);
+    }
+    return t.data();
+}
 
 // special choice list used by R_CHOICE
 static const scpi_choice_def_t kChoices[] = {{"ALPHa", 1}, {"BETA", 2}, {"GAMMa", 3}, {"D", 4}, SCPI_CHOICE_LIST_END};
@@ -91,6 +112,9 @@ struct Inst {
     std::vector<int> errors;          // error callback codes
     std::vector<std::pair<int, int>> controls;
     int handlerCalls = 0;
+    bool inControl = false;
+    int repush = 0, repushed = 0;     // see cbError
+    std::unique_ptr<Inst> decoy;      // see InstCfg::decoy
     std::string invariant;            // first violated structural invariant ("" = none)
     // state sampled inside the most recent handler (for C09 non-trivial classification)
     int lastHandlerTag = 0;
@@ -111,13 +135,24 @@ struct Inst {
         Inst *me = (Inst *) c->user_context;
         me->errors.push_back((int) e);
         me->trace.push_back(fmt("E:%d", (int) e));
+        // an application that keeps a backlog of its own and re-queues from it when told that the queue has run empty
+        if (e == 0 && me->repush > 0 && SCPI_ErrorCount(c) == 0) { me->repush--; me->repushed++; char t[24]; snprintf(t, sizeof t, "again%d", me->repushed); SCPI_ErrorPushEx(c, (int16_t) (-330 - me->repushed), t, 0); }
         return 0;
     }
     static scpi_result_t cbControl(scpi_t *c, scpi_ctrl_name_t ctrl, scpi_reg_val_t v) {
         Inst *me = (Inst *) c->user_context;
         me->controls.push_back({(int) ctrl, (int) v});
         me->trace.push_back(fmt("C:%d:%d:stb=%d", (int) ctrl, (int) v, (int) SCPI_RegGet(c, SCPI_REG_STB)));
-        return SCPI_RES_OK;
+        if (ctrl == SCPI_CTRL_SRQ && me->cfg.controlAction && !me->inControl) {
+            me->inControl = true;
+            switch (me->cfg.controlAction) {
+                case 1: (void) SCPI_RegGet(c, SCPI_REG_ESR); SCPI_RegSet(c, SCPI_REG_ESR, 0); break;
+                case 2: SCPI_RegSet(c, SCPI_REG_SRE, 0); break;
+                default: SCPI_ErrorPush(c, -310); break;
+            }
+            me->inControl = false;
+        }
+        return me->cfg.controlReturns ? SCPI_RES_ERR : SCPI_RES_OK;
     }
     static scpi_result_t cbReset(scpi_t *c) {
         Inst *me = (Inst *) c->user_context;
@@ -140,13 +175,20 @@ struct Inst {
         scpi_command_t end = SCPI_CMD_LIST_END;
         table.push_back(end);
         ifc.error = cbError; ifc.write = cbWrite; ifc.control = cbControl; ifc.flush = cbFlush; ifc.reset = cbReset;
-        SCPI_Init(&ctx, table.data(), &ifc, scpi_units_def, "MANU", "MODEL", nullptr, "01-02", inbuf->p, cfg.bufLen,
+        if (cfg.noOptionalCallbacks) { ifc.control = nullptr; ifc.flush = nullptr; ifc.reset = nullptr; }
+        SCPI_Init(&ctx, table.data(), &ifc, cfg.units ? cfg.units : scpi_units_def, "MANU", "MODEL", nullptr, "01-02", inbuf->p, cfg.bufLen,
                   (scpi_error_t *) qbuf->p, (int16_t) cfg.queueLen);
 #if USE_DEVICE_DEPENDENT_ERROR_INFORMATION && !USE_MEMORY_ALLOCATION_FREE
         heapbuf.reset(new XBuf(cfg.heapLen, 0xEE));
         SCPI_InitHeap(&ctx, heapbuf->p, cfg.heapLen);
 #endif
         ctx.user_context = this;
+        if (cfg.decoy) {
+            InstCfg d = cfg; d.decoy = false; d.units = decoyUnits(); d.traceValues = false;
+            if (d.cmds.size() >= 2) std::rotate(d.cmds.begin(), d.cmds.begin() + 1, d.cmds.end());      // same commands at other table positions ...
+            if (d.cmds.size() >= 4) d.cmds.resize(d.cmds.size() - d.cmds.size() / 3);                    // ... in a shorter table
+            decoy.reset(new Inst(d));
+        }
     }
     Inst(const Inst &) = delete;
     ~Inst() { SCPI_ErrorClear(&ctx); }   // releases device-dependent texts (malloc cfg)
@@ -160,6 +202,7 @@ struct Inst {
     }
     bool input(const std::string &bytes) { return input(bytes.data(), (int) bytes.size()); }
     bool input(const char *d, int n) {
+        if (decoy) { decoy->input(d, n); decoy->input("\r", 1); decoy->trace.clear(); decoy->out.clear(); decoy->errors.clear(); decoy->controls.clear(); SCPI_ErrorClear(&decoy->ctx); }
         // the chunk is handed over in an exact-size heap copy so that over-reads of the caller's data trap
         XBuf copy((size_t) n);
         if (n) memcpy(copy.p, d, (size_t) n);
